@@ -156,6 +156,11 @@ def finishArrive (n : Node) (t : Table) (s : Sess) (m : Msg) : Node × Out :=
       | none => ({ n with t := t1 }, .err .panic)
   | .error .noSpaceExchanges =>
     ({ n with t := ((t1.nextExchId).1.remove s.uid).1 }, .closed s.uid)
+  | .error .duplicate =>
+    -- a duplicate that is not itself a standalone ack is acknowledged again: a standalone ack is
+    -- written on the session, outside any exchange slot (`pre_send` consumes a message counter)
+    if m.kind = .sack then ({ n with t := t1 }, .dropped (some .duplicate))
+    else ({ n with t := t.setSess (r.1.preSend none false (some m.ctr) none).1 }, .dropped (some .duplicate))
   | .error e => ({ n with t := t1 }, .dropped (some e))
 
 /-- `process_rx`: take the EMPTY slot, `decode_packet`, `handle_rx_packet` -/
